@@ -89,7 +89,14 @@ class VfsRequest(request.SmartServerRequest):
             A string path suitable for use on the server side.
         """
         x = request.SmartServerRequest.translate_client_path(self, relpath)
-        return str(urlutils.unescape(x))
+        x = str(urlutils.unescape(x))
+        # The result is still escaped and the backing transport unescapes it
+        # once more, after the above-root check has already been done on the
+        # escaped form.  An escaped separator would only become a separator
+        # then (e.g. "..%2F.." -> "../.."), so refuse it here.
+        if "%2f" in x.lower():
+            raise urlutils.InvalidURLJoin("escaped path separator", x, relpath)
+        return x
 
 
 class HasRequest(VfsRequest):
